@@ -399,6 +399,14 @@ pub fn run(tier: &str) -> Report {
                 let mut body = vec![lines[i], lines[j]]; if let Some(k) = k { body.push(lines[k]); }
                 let second = if two { format!("script timeline1 {{ {} }}\n", lines[(i + j) % n]) } else { String::new() };
                 extra.push(("timeline", t(Kind::Ecl, game), format!("void sub0() {{ }}\nvoid sub1() {{ }}\nscript timeline0 {{ {} }}\n{second}", body.join(" "))));
+                // TH08+ timeline instructions carry a difficulty mask: the same body with labels on its instructions
+                if two && k.is_none() && !lines[i].ends_with(':') && !lines[j].ends_with(':') {
+                    for (la, lb) in [("0", "*"), ("12", "3"), ("*", "01"), ("3", "3"), ("0123", "1")] {
+                        for tg in ["th08", "th09", "th095"] {
+                            extra.push(("timeline", t(Kind::Ecl, tg), format!("void sub0() {{ }}\nvoid sub1() {{ }}\nscript timeline0 {{ {{\"{la}\"}}: {} {{\"{lb}\"}}: {} {} }}\n", lines[i], lines[j], lines[(i + j) % n])));
+                        }
+                    }
+                }
             }}}
         }
         // ANM files in which 2..4 entries share one path (the recompile matches them to the image source's entries of that
@@ -510,7 +518,7 @@ pub fn replay(detail: &serde_json::Value) -> i32 {
         let src = detail["source"].as_str().unwrap_or("").to_string();
         // (the game is not recoverable for end/timeline from the name alone: try the candidates)
         let mut found = None;
-        for game in ["th06", "th08", "th10", "th12", "th095", "th125"] {
+        for game in ["th06", "th08", "th09", "th10", "th12", "th095", "th125"] {
             let t = Tool::new(tool.kind, game.parse::<Game>().unwrap());
             if let Some(bytes) = drive::compile(t, src.as_bytes(), &CompileOpts::default()).bytes {
                 let hexs: String = bytes.iter().map(|b| format!("{b:02x}")).collect();
